@@ -142,12 +142,19 @@ pub fn check_embedded(msg: &[u8], rdata_name_at: Option<usize>) -> (Vec<Finding>
                         } else if let (Some(sch), crate::refmodel::packet::RefRData::Typed { vals, .. }) = (crate::refmodel::schema::schema(r.rtype), &lr.rdata) {
                             // every name inside the RDATA is the RFC decoding at its position
                             if let Ok(d) = crate::refmodel::schema::decode_vals(sch, msg, r.rdata_start, r.rdata_end()) {
+                                let mut after_name = false;
                                 for (j, (a, b)) in vals.iter().zip(d.vals.iter()).enumerate() {
-                                    if let (crate::refmodel::schema::Val::Name(x), crate::refmodel::schema::Val::Name(y)) = (a, b) {
-                                        if x != y {
-                                            out.push(finding("C06|embedded|rdata-name", format!("record {} ({}) field {}: {:?} vs RFC {:?} in {}", i, sch.mnemonic, j, x, y, crate::engine::truncate(&hex(msg), 300)), mk_case()));
-                                        }
+                                    let is_name = matches!(b, crate::refmodel::schema::Val::Name(_) | crate::refmodel::schema::Val::Gateway(crate::refmodel::schema::Gw::Domain(_)));
+                                    if is_name && a != b {
+                                        out.push(finding("C06|embedded|rdata-name", format!("record {} ({}) field {}: {:?} vs RFC {:?} in {}", i, sch.mnemonic, j, a, b, crate::engine::truncate(&hex(msg), 300)), mk_case()));
+                                    } else if after_name && a != b {
+                                        // parsing of the enclosing element resumes right after the name's in-place bytes
+                                        out.push(finding("C06|embedded|rdata-after-name", format!("record {} ({}) field {} (after an embedded name): {:?} vs reference {:?} in {}", i, sch.mnemonic, j, a, b, crate::engine::truncate(&hex(msg), 300)), mk_case()));
                                     }
+                                    after_name |= is_name;
+                                }
+                                if vals.len() != d.vals.len() {
+                                    out.push(finding("C06|embedded|rdata-shape", format!("record {} ({}): {} fields vs {}", i, sch.mnemonic, vals.len(), d.vals.len()), mk_case()));
                                 }
                             }
                         }
@@ -566,6 +573,27 @@ pub fn run(ctx: &Ctx) {
             }
         });
         ctx.space("many-step names (as owner, MX exchange and question names inside messages)", msgs.len() as u64, "complete");
+    }
+    // space 3d: every valid compression layout of every name-bearing record type
+    {
+        let (n, capped) = super::c11::for_each_layout(ctx, 4000, &|m, t| {
+            t.evals += 1;
+            let (mut f, nt, tag) = check_embedded(m, None);
+            if nt {
+                t.nontrivial += 1;
+            }
+            t.outcome(tag);
+            if tag == "rejected" && walk(m).is_ok() {
+                f.push(finding("C06|embedded|rejects-valid", format!("message whose names are all valid backward-pointer names rejected: {}", crate::engine::truncate(&hex(m), 300)), json!({"kind": "embedded", "msg": hex(m), "rdata_name_at": null, "expect_accept": true})));
+            }
+            if !f.is_empty() {
+                ctx.violations(f);
+            }
+        });
+        if capped {
+            ctx.cap_hit("layout enumeration capped at 4000 layouts for some packet");
+        }
+        ctx.space("compression layouts of every name-bearing record type (names in place, label prefix + pointer, bare pointer, pointer to pointer): labels of every name and every field after it compared with the reference decoding", n, "complete");
     }
     // space 4: embedded sweeps
     let emb: [u8; 12] = [0x00, 0x01, 0x02, 0x3f, 0x40, 0x80, 0xc0, 0x0c, 0x0d, 0x0e, 0x17, b'a'];
